@@ -59,10 +59,12 @@ type Stmt struct {
 	InTx     bool
 	Err      string
 	Affected int
+	Hit      [][]driver.Value // select: the full rows that matched
 }
 
 // Event is one committed row change: Before/After are full rows in table column order (nil = absent).
 type Event struct {
+	Def           TableDef // the table's definition when the statement ran
 	Table         string
 	TableID       uint64
 	Kind          string // insert | update | delete
@@ -81,6 +83,12 @@ type DB struct {
 	tables   map[string]*table
 	log      []Stmt
 	OnCommit func([]Event) // called (outside the lock) with the events of each committed statement / transaction
+	// OnApply is called UNDER the lock at the moment a statement outside a transaction changes the
+	// table (the linearization point of the write); OnStmt under the lock after every statement;
+	// BeforeQuery outside the lock before a SELECT takes it (a place to park a reader).
+	OnApply     func([]Event)
+	OnStmt      func(Stmt)
+	BeforeQuery func(sql string, args []driver.Value)
 	AllText  bool          // hand every non-NULL value back as []byte text (MySQL's text protocol)
 	Database string
 	nextTID  uint64
@@ -655,10 +663,16 @@ func (c *conn) logStmt(s Stmt, err error) {
 	}
 	s.InTx = c.inTx
 	c.d.log = append(c.d.log, s)
+	if h := c.d.OnStmt; h != nil {
+		h(s)
+	}
 }
 
 func (c *conn) query(q string, args []driver.Value) (driver.Rows, error) {
 	d := c.d
+	if bq := d.BeforeQuery; bq != nil {
+		bq(q, args)
+	}
 	d.mu.Lock()
 	defer d.mu.Unlock()
 	st := Stmt{SQL: q, Args: append([]driver.Value{}, args...)}
@@ -787,6 +801,9 @@ func (c *conn) doQuery(q string, args []driver.Value, st *Stmt) (driver.Rows, er
 		}
 	}
 	st.Affected = len(hit)
+	for _, r := range hit {
+		st.Hit = append(st.Hit, append([]driver.Value{}, r...))
+	}
 	if count {
 		return &rows{cols: []string{"COUNT(*)"}, data: [][]driver.Value{{int64(len(hit))}}}, nil
 	}
@@ -833,6 +850,9 @@ func (c *conn) exec(q string, args []driver.Value) (driver.Result, error) {
 			c.events = append(c.events, evs...)
 		} else if len(evs) > 0 {
 			cb = d.OnCommit
+			if h := d.OnApply; h != nil {
+				h(evs)
+			}
 		}
 	}
 	d.mu.Unlock()
@@ -970,7 +990,7 @@ func (c *conn) doExec(q string, args []driver.Value, st *Stmt) (driver.Result, [
 			switch {
 			case dup < 0:
 				t.rows = append(t.rows, row)
-				evs = append(evs, Event{Table: tn, TableID: t.id, Kind: "insert", After: append([]driver.Value{}, row...)})
+				evs = append(evs, Event{Def: t.def, Table: tn, TableID: t.id, Kind: "insert", After: append([]driver.Value{}, row...)})
 				n++
 			case st.Kind == "upsert":
 				before := append([]driver.Value{}, t.rows[dup]...)
@@ -988,7 +1008,7 @@ func (c *conn) doExec(q string, args []driver.Value, st *Stmt) (driver.Result, [
 				}
 				if changed {
 					t.rows = append(append(append([][]driver.Value{}, t.rows[:dup]...), after), t.rows[dup+1:]...)
-					evs = append(evs, Event{Table: tn, TableID: t.id, Kind: "update", Before: before, After: after})
+					evs = append(evs, Event{Def: t.def, Table: tn, TableID: t.id, Kind: "update", Before: before, After: after})
 					n += 2
 				}
 			default:
@@ -1073,7 +1093,7 @@ func (c *conn) doExec(q string, args []driver.Value, st *Stmt) (driver.Result, [
 			}
 			if changed {
 				newRows[ri] = after
-				evs = append(evs, Event{Table: tn, TableID: t.id, Kind: "update", Before: append([]driver.Value{}, r...), After: after})
+				evs = append(evs, Event{Def: t.def, Table: tn, TableID: t.id, Kind: "update", Before: append([]driver.Value{}, r...), After: after})
 			}
 		}
 		t.rows = newRows
@@ -1112,7 +1132,7 @@ func (c *conn) doExec(q string, args []driver.Value, st *Stmt) (driver.Result, [
 				}
 			}
 			if ok {
-				evs = append(evs, Event{Table: tn, TableID: t.id, Kind: "delete", Before: append([]driver.Value{}, r...)})
+				evs = append(evs, Event{Def: t.def, Table: tn, TableID: t.id, Kind: "delete", Before: append([]driver.Value{}, r...)})
 			} else {
 				keep = append(keep, r)
 			}
